@@ -41,6 +41,7 @@ func genEscapes(r *rng) string {
 
 func init() {
 	suites["c06"] = func(e *emitter, r *rng, thorough bool) {
+		strHistories(e, r, false) // the returned content must stay what it was, whatever is read next with the same scratch
 		n := 3
 		if thorough {
 			n = 4
@@ -345,6 +346,18 @@ func strHistories(e *emitter, r *rng, thorough bool) {
 		hn = 10000
 	}
 	strs := []string{`"caf\u00e9 au lait"`, `"x\ty`, `"Zo\u00eb"`, `"K\u00f6ln"`, `"plain"`, `"line one\nline two, long enough to outgrow a small buffer"`, `"SECOND\tVALUE that is also long enough to need growth"`, `""`, `"\n"`, `null`, `"a\\b"`, `"bad\q"`, `"😀\ud83d\ude00"`}
+	// every ordered pair (and some triples) of: escape-free, escaped short, escaped long, failing -
+	// with every scratch capacity, through ReadString and DecodeString
+	core := []string{`"hello world" , 1`, `"plain"`, `"\n"`, `"tab\there"`, `"2nd\nvalue \\ \"quoted\" long enough to outgrow what the first one left"`, `"first value:\tcaf\u00e9 \ud83d\ude00"`, `"bad\q"`, `null`}
+	for _, a := range core {
+		for _, b := range core {
+			for _, capn := range []int{-1, 0, 4, 64} {
+				for _, opp := range [][2]string{{"rs", "rs"}, {"dec", "dec"}, {"rs", "dec"}} {
+					e.emit("strhist %d %s:%s %s:%s %s:%s", capn, opp[0], hs([]byte(a)), opp[1], hs([]byte(b)), opp[0], hs([]byte(a)))
+				}
+			}
+		}
+	}
 	for i := 0; i < hn; i++ {
 		k := 2 + r.intn(5)
 		var ops []string
